@@ -11,9 +11,12 @@ from ._meta import M, COMMON_NOTE
 META = dict(M["C12"])
 META.update(
     level="other",
-    technique="symbolic execution of the real get_section_order_function (writer) and SectionParser.__init__ + the order lookup of SectionParser.metadata (reader) on the real ORDER_DEFINITIONS table with a symbolic mnemonic; equality of the two results discharged by z3; configuration pairs as bounded stand-in",
+    technique="contracts on the real get_section_widths, the header loops W3 (full line layout), the cell formatter W5, the row loop W7 and the data-section title block W6 of writer.write discharged by z3; symbolic execution of the real get_section_order_function (writer) and SectionParser.__init__ + the order lookup of SectionParser.metadata (reader) on the real ORDER_DEFINITIONS table with a symbolic mnemonic; equality of the two results discharged by z3; configuration pairs as bounded stand-in",
     level_text="Proved for EVERY mnemonic string m, versions 1.2 and 2.0, sections Version/Well/Curves/Parameter and case maps {identity, upper, lower}: the value/description order the writer uses for m equals the order the reader uses for casemap(m) "
-               "(both sides are the repository's own loops, re-read and executed on the repository's own table on every run). Everything else (data part, widths, wrap) is bounded: read(write(x,cfg1)) vs read(write(x,cfg2)) over single-option pairs.",
+               "(both sides are the repository's own loops, re-read and executed on the repository's own table on every run); every header line of ~Well/~Parameter/~Curves has exactly the layout "
+               "'mnemonic padded to the left width . unit, blanks up to the middle width, value and description in the table's order for the ORIGINAL mnemonic' with at least one blank between unit and value, for both versions; "
+               "cells are written as spacer + formatted value (NaN as the NULL value), one physical line per row when unwrapped; what is written for the data-section title begins with data_section_header + ' ' and ends with the line terminator. "
+               "Everything else (float text, wrapped rows, the regex parse of the re-read file) is bounded: read(write(x,cfg1)) vs read(write(x,cfg2)) over single-option pairs.",
     level_note=COMMON_NOTE + "T-str: upper(upper(m)) = upper(m), upper(lower(m)) = upper(m) (validated natively).",
     validate=["T-str"], trusted=["T-str"])
 
